@@ -3,13 +3,14 @@
 patch applied to /repo (restored afterwards); updates meta.checks_run and prints one line per (seed, check).
 harmless/* are run with every check of their 'checks' list and must raise nothing."""
 import json, os, subprocess, sys, time
-V = "/verif"
+V = os.path.dirname(os.path.dirname(os.path.abspath(__file__)))
+REPO = os.environ.get("MOTO_REPO", "/repo")   # a scratch worktree of the repository lets several lanes run side by side
 names = sys.argv[1:] or sorted(d for d in os.listdir(f"{V}/seeded") if d.startswith("C"))
 for name in names:
     d = f"{V}/seeded/{name}"
     meta = json.load(open(f"{d}/meta.json"))
     props = list(meta.get("checks_run", {}).keys()) or [meta.get("breaks_property", name[:3])]
-    if subprocess.run(["git", "-C", "/repo", "apply", f"{d}/patch.diff"]).returncode != 0:
+    if subprocess.run(["git", "-C", REPO, "apply", f"{d}/patch.diff"]).returncode != 0:
         print(name, "PATCH DOES NOT APPLY", flush=True)
         continue
     try:
@@ -30,8 +31,8 @@ for name in names:
                                                     "replay_excerpt": replay, "wall": round(time.time() - t0)}
             print(name, p, "rc", r.returncode, lines[:1], flush=True)
     finally:
-        subprocess.check_call(["git", "-C", "/repo", "checkout", "--", "."])
-        subprocess.run(["git", "-C", V, "checkout", "--", "evidence"], capture_output=True)
+        subprocess.check_call(["git", "-C", REPO, "checkout", "--", "."])
+        subprocess.run(["git", "-C", V, "checkout", "--", "evidence"], capture_output=True)  # no-op in a copy without .git
         for f in os.listdir(f"{V}/replays"):
             if f.endswith(".json"):
                 os.remove(os.path.join(V, "replays", f))
